@@ -76,7 +76,8 @@ impl FieldAttributesInfo {
                     "The `default` field attribute is defined twice.",
                 ));
             }
-            self.default = Some(default)
+            self.default = Some(default);
+            self.default_span = other.default_span;
         }
         if let Some(missing_field_error) = other.missing_field_error {
             if let Some(self_missing_field_error) = &self.missing_field_error {
@@ -355,7 +356,8 @@ impl ContainerAttributesInfo {
                     "The `rename_all` attribute is defined twice.",
                 ));
             }
-            self.rename_all = Some(rename_all)
+            self.rename_all = Some(rename_all);
+            self.rename_all_span = other.rename_all_span;
         }
         if let Some(err_ty) = other.err_ty {
             if let Some(self_err_ty) = &self.err_ty {
@@ -373,7 +375,8 @@ impl ContainerAttributesInfo {
                     "The `tag` attribute is defined twice.",
                 ));
             }
-            self.tag = TagType::Internal(x)
+            self.tag = TagType::Internal(x);
+            self.tag_span = other.tag_span;
         }
         if let Some(x) = other.deny_unknown_fields {
             if let Some(self_deny_unknown_fields_span) = &self.deny_unknown_fields_span {
@@ -383,6 +386,7 @@ impl ContainerAttributesInfo {
                 ));
             }
             self.deny_unknown_fields = Some(x);
+            self.deny_unknown_fields_span = other.deny_unknown_fields_span;
         }
         if let Some(x) = other.from {
             if let Some(self_from) = &self.from {
@@ -420,6 +424,7 @@ impl ContainerAttributesInfo {
                 ));
             }
             self.validate = Some(x);
+            self.validate_span = other.validate_span;
         }
 
         self.generic_params.extend(other.generic_params);
@@ -513,47 +518,48 @@ impl syn::parse::Parse for ContainerAttributesInfo {
         // consumed input: #[deserr( .... )]
 
         loop {
+            let mut other = ContainerAttributesInfo::default();
             let attr_name = input.parse::<Ident>()?;
             // consumed input: #[deserr( ... attr_name ... )]
             match attr_name.to_string().as_str() {
                 "rename_all" => {
                     let rename_all = parse_rename_all(input)?;
-                    this.rename_all = Some(rename_all);
-                    this.rename_all_span = Some(attr_name.span());
+                    other.rename_all = Some(rename_all);
+                    other.rename_all_span = Some(attr_name.span());
                 }
                 "tag" => {
                     let _eq = input.parse::<Token![=]>()?;
                     let lit = input.parse::<LitStr>()?;
                     // #[deserr( ... tag = "lit" )]
-                    this.tag = TagType::Internal(lit.value());
-                    this.tag_span = Some(attr_name.span());
+                    other.tag = TagType::Internal(lit.value());
+                    other.tag_span = Some(attr_name.span());
                 }
                 "error" => {
                     let _eq = input.parse::<Token![=]>()?;
                     let err_ty = input.parse::<syn::Type>()?;
                     // #[deserr( ... error = err_ty )]
-                    this.err_ty = Some(err_ty);
+                    other.err_ty = Some(err_ty);
                 }
                 "deny_unknown_fields" => {
                     if input.peek(Token![=]) {
                         let _eq = input.parse::<Token![=]>()?;
                         let func = input.parse::<ExprPath>()?;
                         // #[deserr( ... deny_unknown_fields = func )]
-                        this.deny_unknown_fields = Some(DenyUnknownFields::Function(func));
+                        other.deny_unknown_fields = Some(DenyUnknownFields::Function(func));
                     } else {
-                        this.deny_unknown_fields = Some(DenyUnknownFields::DefaultError);
+                        other.deny_unknown_fields = Some(DenyUnknownFields::DefaultError);
                     }
-                    this.deny_unknown_fields_span = Some(attr_name.span());
+                    other.deny_unknown_fields_span = Some(attr_name.span());
                 }
                 "from" => {
                     let from_attr = parse_attribute_from(attr_name.span(), input)?;
                     // #[deserr( .. from(from_ty) = function::path::<_>)]
-                    this.from = Some(from_attr);
+                    other.from = Some(from_attr);
                 }
                 "try_from" => {
                     let try_from_attr = parse_attribute_try_from(attr_name.span(), input)?;
                     // #[deserr( .. try_from(from_ty) = function::path::<_> -> to_ty )]
-                    this.try_from = Some(try_from_attr);
+                    other.try_from = Some(try_from_attr);
                 }
                 "validate" => {
                     // #[deserr( ... validate .. )]
@@ -561,25 +567,27 @@ impl syn::parse::Parse for ContainerAttributesInfo {
                     // #[deserr( ... validate = .. )]
                     let validate_func = parse_function_returning_error(input)?;
                     // #[deserr( ... validate = some::func<T> )]
-                    this.validate = Some(validate_func);
+                    other.validate = Some(validate_func);
+                    other.validate_span = Some(attr_name.span());
                 }
                 "generic_param" => {
                     let _eq = input.parse::<Token![=]>()?;
                     let param = input.parse::<GenericParam>()?;
                     // #[deserr( ... generic_params = P )]
-                    this.generic_params.push(param);
+                    other.generic_params.push(param);
                 }
                 "where_predicate" => {
                     let _eq = input.parse::<Token![=]>()?;
                     let pred = input.parse::<WherePredicate>()?;
                     // #[deserr( ... where_predicate = P: Display + Debug )]
-                    this.where_predicates.push(pred);
+                    other.where_predicates.push(pred);
                 }
                 _ => {
                     let message = format!("Unknown deserr container attribute: {}", attr_name);
                     return Result::Err(syn::Error::new_spanned(attr_name, message));
                 }
             }
+            this.merge(other)?;
 
             if input.peek(Token![,]) {
                 let _comma = input.parse::<Token![,]>()?;
@@ -693,7 +701,8 @@ impl VariantAttributesInfo {
                     "The `rename_all` attribute is defined twice.",
                 ));
             }
-            self.rename_all = Some(rename_all)
+            self.rename_all = Some(rename_all);
+            self.rename_all_span = other.rename_all_span;
         }
         if let Some(rename) = other.rename {
             if let Some(self_rename) = &self.rename {
@@ -715,21 +724,23 @@ impl syn::parse::Parse for VariantAttributesInfo {
         // consumed input: #[deserr( .... )]
 
         loop {
+            let mut other = VariantAttributesInfo::default();
             let attr_name = input.parse::<Ident>()?;
             // consumed input: #[deserr( ... attr_name ... )]
             match attr_name.to_string().as_str() {
                 "rename" => {
-                    this.rename = Some(parse_rename(input)?);
+                    other.rename = Some(parse_rename(input)?);
                 }
                 "rename_all" => {
-                    this.rename_all = Some(parse_rename_all(input)?);
-                    this.rename_all_span = Some(attr_name.span());
+                    other.rename_all = Some(parse_rename_all(input)?);
+                    other.rename_all_span = Some(attr_name.span());
                 }
                 _ => {
                     let message = format!("Unknown deserr variant attribute: {}", attr_name);
                     return Result::Err(syn::Error::new_spanned(attr_name, message));
                 }
             }
+            this.merge(other)?;
 
             if input.peek(Token![,]) {
                 let _comma = input.parse::<Token![,]>()?;
